@@ -22,6 +22,7 @@ Tie, re-run from VERIF_REPO's working tree on every invocation:
      round-robin to the nodes; every reply and the VERIFDUMP of every node are compared."""
 import collections
 import json
+import random
 import re
 
 from . import clusterlib, gen, gen_cluster, lib, memlib
@@ -270,9 +271,23 @@ def check_routing(d, progtext, tag):
     return res
 
 
-def check_programs(d, progtext, tag, with_model):
-    """Runs one program file through both paths (and the model). Returns dict(failing=..., stats...)."""
-    res = dict(failing=None, err=None, steps=0, cases=0, entries=0, cut=0, trace="")
+def case_has_nondet(case_lines):
+    for l in case_lines:
+        fs = l.split()
+        if fs and fs[0] == "C" and len(fs) > 3 and fs[3] != "-":
+            try:
+                if bytes.fromhex(fs[3]).lower() in gen_cluster.NONDET:
+                    return True
+            except ValueError:
+                pass
+    return False
+
+
+def check_programs(d, progtext, tag, with_model, cluster_mode="cluster"):
+    """Runs one program file through both paths (and the model). Returns dict(failing=..., stats...).
+    cluster_mode "clusterpar": several connections, the proposals of a round all pending before any
+    is committed."""
+    res = dict(failing=None, err=None, steps=0, cases=0, entries=0, cut=0, trace="", model_skipped=0, nondet_cases=0)
     t1, err = run_mode(d, "standalone", progtext, tag + "_pre")
     if err:
         res["err"] = err
@@ -282,24 +297,35 @@ def check_programs(d, progtext, tag, with_model):
     if err:
         res["err"] = err
         return res
-    tc, err = run_mode(d, "cluster", progtext2, tag)
+    tc, err = run_mode(d, cluster_mode, progtext2, tag)
     allc = {memlib.case_name(c): c for c in memlib.split_cases(progtext2)}
     res["cases"] = len(allc)
     if err:
         m = re.search(r"at=(\S+) (\d+)", err)
         cl = allc.get(m.group(1)) if m else None
         res["failing"] = dict(kind="cluster-path-died", detail=err, case=cl,
-                              note="the standalone path answers every step of this program; the cluster request path took the process down")
+                              note="the standalone path answers every step of this program; the cluster request path took the process down"
+                                   + (" (proposals of one round were pending together before being committed)" if cluster_mode == "clusterpar" else ""))
         return res
     ca, cc = parse_trace(ta), parse_trace(tc)
     wa, wc = parse_wire(d / (ta.name + ".wire")), parse_wire(d / (tc.name + ".wire"))
     res["trace"] = tc.read_text()
     res["steps"] = sum(1 for l in res["trace"].splitlines() if l.startswith("S "))
+    nondet = set()
     for name, sa in ca.items():
+        if case_has_nondet(allc[name]):
+            # SPOP/SRANDMEMBER/HRANDFIELD draw differently on the two keyspaces: such a case is judged
+            # by the model (acceptor form) on each path, not by comparing the paths
+            nondet.add(name)
+            continue
         diff = aligned_compare(sa, cc.get(name, []), wa.get(name, []), wc.get(name, []))
         if diff:
             res["failing"] = dict(kind="cluster-vs-standalone", detail=diff, case=allc[name])
+            if cluster_mode == "clusterpar":
+                res["failing"]["note"] = ("each round's commands (one per connection, disjoint keys) were all proposed before any was committed; "
+                                          "the entry applied for a proposal must still be that proposal (C14_log_carries_unaltered)")
             return res
+    res["nondet_cases"] = len(nondet)
     bad, n, err = entries_verdict(d, d / (tc.name + ".entries"), tag)
     res["entries"] = n
     if err:
@@ -311,15 +337,23 @@ def check_programs(d, progtext, tag, with_model):
                               note="the payload the implementation wrote into the log is not encode_proposal(args,id), or does not decode to the client's argument vector")
         return res
     if with_model:
-        for which, tr in (("standalone", ta), ("cluster", tc)):
-            mm, err = model_mismatches(d, tr, tag + "_" + which)
-            if err:
-                res["err"] = err
-                return res
-            if mm:
-                name = sorted(mm)[0]
-                res["failing"] = dict(kind="%s-path-vs-model" % which, detail=mm[name], case=allc.get(name), n_mismatching=len(mm))
-                return res
+        mma, err = model_mismatches(d, ta, tag + "_standalone")
+        if err:
+            res["err"] = err
+            return res
+        mmc, err = model_mismatches(d, tc, tag + "_cluster")
+        if err:
+            res["err"] = err
+            return res
+        # a program on which the STANDALONE path already disagrees with the model is a matter of that
+        # command family's own property (C01, C09-C12, C18), not of C14: counted, not reported here
+        res["model_skipped"] = len(mma)
+        only_cluster = sorted(set(mmc) - set(mma))
+        if only_cluster:
+            name = only_cluster[0]
+            res["failing"] = dict(kind="cluster-path-vs-model", detail=mmc[name], case=allc.get(name), n_mismatching=len(only_cluster),
+                                  note="the standalone path agrees with the extracted model on this program, the cluster path does not")
+            return res
     return res
 
 
@@ -475,8 +509,95 @@ def run_processes(ctx, prog, sizes=(1, 3)):
             c.close()
 
 
+# ----------------------------------------------------------------------------- concurrent clients
+def run_concurrent(ctx, d, seed, nclients, nops, nodes=1):
+    """Several clients at once on real node(s), each on its own keys, so that a node has several
+    proposals in flight (encoded, handed to Raft, not yet applied).  Every reply and the final
+    keyspace must be those of running each client's commands on a standalone Manager (any
+    interleaving gives the same per-client replies: the keys are disjoint); that reference run is
+    itself replayed by the extracted model.  Returns (failing, err, stats)."""
+    import threading
+    stats = dict(concurrent_steps=0)
+    progs = gen_cluster.gen_concurrent_clients(seed, nclients, nops)
+    ref = gen.Case("c14conc_%d" % seed)
+    for cl, p in enumerate(progs):
+        for cmd in p:
+            ref.cmd(cmd, conn=cl)
+    ref.dump()
+    t, err = run_mode(d, "standalone", ref.text(), "concref")
+    if err:
+        return None, err, stats
+    mm, err = model_mismatches(d, t, "concref")
+    if err or mm:
+        return None, err or "reference run of the concurrent-clients program disagrees with the model: %s" % mm, stats
+    exp_lines = [l.partition("|")[2].strip() for l in t.read_text().splitlines() if l.startswith("S ")]
+    exp_dump = sorted(l.split(" ", 2)[2] for l in t.read_text().splitlines() if l.startswith("D "))
+    expected, k = [], 0
+    for p in progs:
+        expected.append(exp_lines[k:k + len(p)])
+        k += len(p)
+    ok, log, binary = clusterlib.build_server()
+    if not ok:
+        return None, "server build failed: " + log[-1500:], stats
+    wl = dict(seed=seed, clients=nclients, ops_per_client=nops, nodes=nodes)
+    cluster = clusterlib.Cluster(binary, nodes, tag="c14cc", env={"VERIF_PROPOSAL_TIMEOUT_MS": "4000"})
+    try:
+        cluster.start_all()
+        e = cluster.wait_ready()
+        if e:
+            return None, "cluster start-up: " + e, stats
+        got = [[] for _ in progs]
+        errs = [None] * len(progs)
+
+        def client(cl):
+            try:
+                c = cluster.client(cl % nodes, timeout=20.0)
+                for cmd in progs[cl]:
+                    got[cl].append(clusterlib.canon_for_cmd(cmd[0].decode("latin-1").lower(), c.cmd(cmd)))
+                c.close()
+            except Exception as ex:   # noqa: BLE001
+                errs[cl] = repr(ex)
+        ths = [threading.Thread(target=client, args=(cl,)) for cl in range(len(progs))]
+        for th in ths:
+            th.start()
+        for th in ths:
+            th.join(120)
+        stats["concurrent_steps"] = sum(len(g) for g in got)
+        for i in range(nodes):
+            if not cluster.alive(i):
+                return dict(kind="node-down-under-concurrent-clients", node=i + 1, concurrent=wl,
+                            reason=(cluster.crash_reason(i) or cluster.output(i, 1500))[:1500],
+                            note="several proposals were in flight on this node; a standalone server runs the same commands without dying"), None, stats
+        for cl, p in enumerate(progs):
+            for si, cmd in enumerate(p):
+                g = got[cl][si] if si < len(got[cl]) else "<no reply: %s>" % errs[cl]
+                if g != expected[cl][si]:
+                    return dict(kind="concurrent-clients-vs-standalone", client=cl, step=si + 1, via_node=cl % nodes + 1,
+                                command=[repr(a) for a in cmd], standalone=expected[cl][si][:300], cluster=g[:300], concurrent=wl,
+                                client_program=[" ".join(repr(a)[1:] for a in c) for c in p[:si + 1]][-8:],
+                                note="the client works on keys nobody else touches; with its commands alone a standalone server gives the "
+                                     "reply shown, the cluster node gave another one while other clients' proposals were in flight"), None, stats
+        for i in range(nodes):
+            c = cluster.client(i, timeout=20.0)
+            dmp = c.cmd([b"verifdump"])
+            c.close()
+            have = sorted(bytes.fromhex(x[1:]).decode("latin-1") for x in clusterlib.split_top(dmp[2:-1])[1:]) if dmp.startswith("*[") else [dmp]
+            if have != exp_dump:
+                return dict(kind="concurrent-clients-keyspace-vs-standalone", node=i + 1, concurrent=wl,
+                            standalone_only=sorted(set(exp_dump) - set(have))[:4], cluster_only=sorted(set(have) - set(exp_dump))[:4]), None, stats
+        return None, None, stats
+    finally:
+        cluster.close()
+
+
 # ----------------------------------------------------------------------------- driver
 def run(ctx):
+    try:    # the extracted model recurses once per reply element (SRANDMEMBER with a huge negative count)
+        import resource
+        soft, hard = resource.getrlimit(resource.RLIMIT_STACK)
+        resource.setrlimit(resource.RLIMIT_STACK, (hard, hard))
+    except (ValueError, OSError, ImportError):
+        pass
     cov, broken = lib.proof_gate(ctx, extra_tb=[
         "modelled, not verified: encoding/json + encoding/base64 (re-stated concretely in Cluster/ClusterEnc.v as encode_proposal/decode_proposal; the decoder covers the image of the encoder only); tie = byte-for-byte comparison with RaftProposal.ToBytes and the publishEntries decode on every run",
         "hooks H3/H4 (raftexample/verif_hooks.go, server/verif_hooks.go, tag verif): wiring only (channels, net.Pipe); the filter, the proposal construction, the JSON encode/decode, the apply loop are the server's own functions",
@@ -496,10 +617,17 @@ def run(ctx):
             return 1 if (diff or err) else 0
         if r.get("case_lines"):
             text = "\n".join(r["case_lines"]) + "\n"
-            res = check_routing(d, text, "replay") if r.get("with_model", True) is None else check_programs(d, text, "replay", r.get("with_model", True))
+            wm = r.get("with_model", True)
+            res = check_routing(d, text, "replay") if wm is None else \
+                check_programs(d, text, "replay", True, cluster_mode="clusterpar") if wm == "par" else check_programs(d, text, "replay", wm)
             print(res["trace"][-3000:])
             print(json.dumps(dict(failing=res["failing"], err=res["err"]), indent=1, default=str))
             return 1 if (res["failing"] or res["err"]) else 0
+        if r.get("concurrent"):
+            w = r["concurrent"]
+            f, err, _ = run_concurrent(ctx, d, w["seed"], w["clients"], w["ops_per_client"], w.get("nodes", 1))
+            print(json.dumps(f or err or "concurrent clients agree with standalone", indent=1, default=str))
+            return 1 if (f or err) else 0
         if r.get("program"):
             f, err, _ = run_processes(ctx, [[bytes.fromhex(a) for a in x] for x in r["program"]])
             print(json.dumps(f or err or "real processes agree", indent=1, default=str))
@@ -516,20 +644,37 @@ def run(ctx):
         if diff:
             failing = diff
     if not err and not failing:
+        from . import gen_hash, gen_set, gen_stream, gen_zset
+        nf = 150 if quick else 1200
+        r0 = random.Random(ctx.seed)
+        zs = gen_zset.gen_c12(ctx.seed, "quick")
+        fam = (gen_hash.directed() + gen_hash.gen_c10(ctx.seed, nf) + gen_set.directed() + gen_set.gen_c11(ctx.seed, nf)
+               + (r0.sample(zs, min(len(zs), nf))) + gen_stream.gen_c18(ctx.seed, nf))
         plan = [("m", gen_cluster.gen_c14_model_cases(ctx.seed, 500 if quick else 8000), True),
-                ("w", gen_cluster.gen_c14_wire_cases(ctx.seed, 300 if quick else 5000), False)]
+                ("p", gen_cluster.gen_c14_par_cases(ctx.seed, 300 if quick else 5000), "par"),
+                ("w", gen_cluster.gen_c14_wire_cases(ctx.seed, 300 if quick else 5000), True),
+                ("fam", fam, True)]
         cdir = lib.VERIF / "corpus"
         for f in sorted(cdir.glob("c14_*.prog")):
             plan.insert(0, ("corpus_" + f.stem, f.read_text(), True))
         plan.append(("f", gen_cluster.gen_c14_filter_cases(ctx.seed, 150 if quick else 2000), None))
         for tag, cases, with_model in plan:
             text = cases if isinstance(cases, str) else "".join(c.text() for c in cases)
-            fn = (lambda t, tg: check_routing(d, t, tg)) if with_model is None else (lambda t, tg, wm=with_model: check_programs(d, t, tg, wm))
+            if with_model is None:
+                fn = lambda t, tg: check_routing(d, t, tg)
+            elif with_model == "par":
+                fn = lambda t, tg: check_programs(d, t, tg, True, cluster_mode="clusterpar")
+            else:
+                fn = lambda t, tg, wm=with_model: check_programs(d, t, tg, wm)
             res = fn(text, tag)
             stats["steps"] += res["steps"]
             stats["cases"] += res["cases"]
             stats["entries"] += res["entries"]
             stats["cut"] += res["cut"]
+            stats["model_skipped"] = stats.get("model_skipped", 0) + res.get("model_skipped", 0)
+            stats["nondet_cases"] = stats.get("nondet_cases", 0) + res.get("nondet_cases", 0)
+            if with_model == "par":
+                stats["par_steps"] = stats.get("par_steps", 0) + res["steps"]
             st = memlib.stats(res["trace"])
             shapes |= st[3]
             hostile.update(hostile_stats(res["trace"]))
@@ -563,6 +708,21 @@ def run(ctx):
             if f:
                 failing = f
         err = err or perr
+    cstats = {}
+    if not err and not failing:
+        for nodes, ncl, nops in ([(1, 6, 40)] if quick else [(1, 8, 200), (3, 12, 150), (1, 16, 60)]):
+            f, cerr, cs = None, None, {}
+            for attempt in range(2):
+                f, cerr, cs = run_concurrent(ctx, d, ctx.seed + nodes, ncl, nops, nodes)
+                if not (cerr and cerr.startswith("cluster start-up")):
+                    break
+            cstats["concurrent_steps"] = cstats.get("concurrent_steps", 0) + cs.get("concurrent_steps", 0)
+            if f:
+                failing = f
+                break
+            if cerr:
+                err = cerr
+                break
     rc = 0
     if failing:
         failing["note"] = failing.get("note") or (
@@ -579,10 +739,13 @@ def run(ctx):
         if kf["kind"] == "open":
             print("KNOWN-FINDING: property=%s %s %s" % (PID, kf["id"], kf["text"]))
     cov.update(dict(
-        evaluations=stats["enc"] + 2 * stats["steps"] + stats["entries"] + pstats.get("process_steps", 0),
+        evaluations=stats["enc"] + 2 * stats["steps"] + stats["entries"] + pstats.get("process_steps", 0) + cstats.get("concurrent_steps", 0),
         encoder_vectors=stats["enc"], program_steps_each_path=stats["steps"], programs=stats["cases"],
         log_entries_checked=stats["entries"], programs_cut_before_a_standalone_panic=stats["cut"],
         process_level_steps=pstats.get("process_steps", 0),
+        concurrent_client_steps_on_real_nodes=cstats.get("concurrent_steps", 0),
+        steps_with_pending_proposals_loopback=stats.get("par_steps", 0),
+        programs_left_to_their_family_property=stats.get("model_skipped", 0), programs_with_random_draws_judged_by_model_only=stats.get("nondet_cases", 0),
         distinct_nontrivial=len(shapes),
         rule="encoder: the empty vector, every single byte value, base64 padding lengths 0-8 for six byte values, a fixed list of hostile "
              "arguments (spaces, CR/LF, invalid and borderline UTF-8, JSON/base64 look-alikes, all 256 bytes, 1000-6000 byte arguments) and "
